@@ -143,7 +143,30 @@ class Ctx:
                 f'Print Assumptions {n}.\n' for n in names)
             out = self.coq_file("assumptions_" + relpath.replace("/", "_"), probe)[1]
             self._parse_assumptions(names, out)
+            if not self.quick:
+                self.coqchk([mod])
         return ok, log
+
+    def coqchk(self, modules, extra_Q=(), timeout=2400):
+        """thorough tier: Coq's independent checker re-checks the compiled module(s) with everything they depend on and
+        lists the axioms of the whole context (-o); one obligation per call."""
+        cmd = ["timeout", str(timeout), "coqchk", "-silent", "-o", "-Q", os.path.join(COQ, "theories"), "GW"]
+        for d, l in extra_Q:
+            cmd += ["-Q", d, l]
+        cmd += list(modules)
+        p = subprocess.run(cmd, capture_output=True, text=True, cwd=COQ)
+        out = p.stdout + p.stderr
+        summary = out[out.find("CONTEXT SUMMARY"):] if "CONTEXT SUMMARY" in out else out[-1500:]
+
+        def section(title):
+            m = re.search(r"\* %s:(.*?)(?=\n\* |\Z)" % re.escape(title), summary, re.S)
+            body = (m.group(1) if m else "").strip()
+            return [] if body in ("<none>", "") else [l.strip() for l in body.splitlines() if l.strip()]
+        axioms = section("Axioms")
+        unsafe = (section("Constants/Inductives relying on type-in-type") + section("Constants/Inductives relying on unsafe (co)fixpoints")
+                  + section("Inductives whose positivity is assumed"))
+        self.oblige("coqchk:" + ",".join(modules), p.returncode == 0 and not unsafe, summary[-800:] if (p.returncode or unsafe) else "")
+        self.extra.setdefault("coqchk", {})[",".join(modules)] = {"axioms_of_loaded_context": axioms, "unsafe": unsafe}
 
     def _parse_assumptions(self, names, out):
         # Output: one block per theorem: "Closed under the global context" or "Axioms:\n name : type ..."
